@@ -154,7 +154,8 @@ class Chain:
         return [r for run in self.runs for r in run.rows]
 
 
-def run_chain(recipe_text, parts, univ=(), trace=True, options=None, plugin_options=None, files=None):
+def run_chain(recipe_text, parts, univ=(), trace=True, options=None, plugin_options=None, files=None,
+              final_continuation=True):
     """Run `recipe_text` for sum(parts) iterations split into len(parts) runs chained by
     continuation files.  Returns a Chain (with trace if requested)."""
     chain = Chain()
@@ -165,7 +166,8 @@ def run_chain(recipe_text, parts, univ=(), trace=True, options=None, plugin_opti
         for i, k in enumerate(parts):
             nrows_before = None
             res = common.run_recipe(
-                recipe_text, reps=k, continuation=cont, want_continuation=True, options=options,
+                recipe_text, reps=k, continuation=cont,
+                want_continuation=final_continuation or i < len(parts) - 1, options=options,
                 plugin_options=plugin_options, files=files)
             chain.runs.append(res)
             if trace:
